@@ -79,7 +79,7 @@ class BindingAbs:
         return z3.And(x != self.anon, z3.Exists([i, j], z3.And(0 <= i, i < ln(lst), 0 <= j, j < ln(c), at(c, j) == x)))
 
 
-@unit("C16.good_split", "C16", "ngo.projection:ProjectionTranslator.good_split")
+@unit("C16.good_split", "C16", "ngo.projection:ProjectionTranslator.good_split", fallback={"mirror": "corpus", "trait": "projection"})
 def good_split(ctx):
     """a split accepted by good_split satisfies the side conditions of the projection lemma
     (exists x.(A(x,y) and B(y,z)) <=> (exists x.A(x,y)) and B(y,z)) relative to ngo's binding analysis:
